@@ -13,7 +13,7 @@ from __future__ import annotations
 import ast
 from typing import Any, Dict, List, Optional, Tuple
 
-from ..absint import App, ClassRef, ExcVal, FuncRef, Hooks, Interp, Obj, Sym, vrepr
+from ..absint import App, Builtin, ClassRef, ExcVal, FuncRef, Hooks, Interp, Obj, Sym, vrepr
 from ..instrmodel import MRE, T, TYPECLS, InstrHooks, prim_of, run_instruction, val
 from ..model import AnalysisError, NotConstant, Repo, dotted, norm
 from ..report import Check
@@ -84,6 +84,73 @@ def result_type(repo: Repo, v: Any) -> str:
             return {'BLS12_381_FrType': 'bls12_381_fr', 'BLS12_381_G1Type': 'bls12_381_g1', 'BLS12_381_G2Type': 'bls12_381_g2',
                     'BytesType': 'bytes'}.get(v.op.split('.')[0], v.op)
     return vrepr(v)[:40]
+
+
+class _EdivHooks(InstrHooks):
+    """divmod is Python's floored division: a = q0*b + r0 with r0 of the sign of b.  Comparisons with 0 are decided by the case."""
+
+    def __init__(self, repo, sign_b: int, sign_r0: int):
+        super().__init__(repo)
+        self.sb, self.sr = sign_b, sign_r0
+
+    def call(self, it, callee, args, kwargs, node):
+        if isinstance(callee, Builtin) and callee.name == 'divmod':
+            return (Sym('q0'), Sym('r0'))
+        if isinstance(callee, Builtin) and callee.name == 'abs' and isinstance(args[0], Sym) and args[0].name == 'b':
+            return App('op:Mult', self.sb, args[0])  # |b| = sign(b) * b
+        return super().call(it, callee, args, kwargs, node)
+
+    def sign(self, t):
+        if isinstance(t, Sym) and t.name == 'b':
+            return self.sb
+        if isinstance(t, Sym) and t.name == 'r0':
+            return self.sr
+        if isinstance(t, App) and t.op == 'int' and len(t.args) == 1:
+            return self.sign(t.args[0])
+        return None
+
+    def compare(self, it, op, a, b, node):
+        if op in ('<', '>', '<=', '>=', '==', '!='):
+            for x, y, o in ((a, b, op), (b, a, {'<': '>', '>': '<', '<=': '>=', '>=': '<=', '==': '==', '!=': '!='}[op])):
+                if isinstance(y, int) and not isinstance(y, bool) and y == 0:
+                    s = self.sign(x)
+                    if s is not None:
+                        return {'<': s < 0, '>': s > 0, '<=': s <= 0, '>=': s >= 0, '==': s == 0, '!=': s != 0}[o]
+        return super().compare(it, op, a, b, node) if hasattr(super(), 'compare') else NotImplemented
+
+
+def _ediv_cases(repo: Repo, chk: Check) -> None:
+    from ..groupmodel import lin
+    cq = instr_class(repo, 'EDIV')
+    fi = repo.find_method(cq, 'execute')
+    # feasible cases of Python's divmod for a non-zero divisor, and the Euclidean result (0 <= r < |b|, a = q*b + r) in terms of (q0, r0, b)
+    cases = [
+        ('positive divisor, remainder zero', 1, 0, {'q0': 1}, {'r0': 1}),
+        ('positive divisor, positive remainder', 1, 1, {'q0': 1}, {'r0': 1}),
+        ('negative divisor, remainder zero', -1, 0, {'q0': 1}, {'r0': 1}),
+        ('negative divisor, negative remainder', -1, -1, {'q0': 1, '#': 1}, {'r0': 1, 'b': -1}),
+    ]
+    for what, sb, sr, want_q, want_r in cases:
+        res = run_instruction(repo, cq, [val('int', 'a'), val('int', 'b'), val('unit', 'rest')], _EdivHooks(repo, sb, sr), wrap=True)
+        rets = [p for p in res if p.outcome == 'return']
+        got = set()
+        for p in rets:
+            fv = [e for e in p.events if isinstance(e, tuple) and e[0] == 'from_value']
+            if len(fv) >= 2:
+                def norm_lin(t):
+                    l = lin(t)
+                    if l is None:
+                        return vrepr(t)
+                    d = dict(l[1])
+                    if l[0]:
+                        d['#'] = l[0]
+                    return tuple(sorted(d.items()))
+                got.add((norm_lin(fv[-2][2]), norm_lin(fv[-1][2])))
+        want = (tuple(sorted(want_q.items())), tuple(sorted(want_r.items())))
+        chk.ob('R-GUARD', cq, got == {want}, f'EDIV int int, {what}: quotient and remainder are the Euclidean ones', fi.loc,
+               {'quotient_remainder': sorted(map(str, got)), 'reference': str(want), 'paths': len(rets)},
+               what=f'EDIV with a {what}: the interpreter computes (q, r) = {sorted(map(str, got))} in terms of Python\'s divmod (q0, r0); '
+                    f'the Euclidean division (0 <= r < |b|) is {want}')
 
 
 def run(repo: Repo, chk: Check) -> None:
@@ -173,6 +240,10 @@ def run(repo: Repo, chk: Check) -> None:
                        {'none_paths': [p.cond_repr()[:120] for p in nones][:2], 'some_paths': [p.cond_repr()[:120] for p in somes][:2]},
                        what=f'{label}: the None result is missing, unreachable or guarded by the wrong condition')
     chk.minimum('reference typing rows examined', nrows, 60)
+
+    # ---- EDIV: Euclidean correction decided over the sign cases of (divisor, Python remainder) ---------------------------------------
+    chk.set_clause('C16.3')
+    _ediv_cases(repo, chk)
 
     # bounded constructors
     chk.set_clause('C16.2')
